@@ -374,8 +374,7 @@ spill_rt!(c16_spill_ts, Value::Timestamp(Timestamp::from_micros(kani::any())), b
 fn s1(b: u8) -> arcstr::ArcStr { let arr = [b]; arcstr::ArcStr::from(unsafe { std::str::from_utf8_unchecked(&arr) }) }
 
 //@ property: C16
-//@ tier: thorough
-//@ optional: yes
+//@ tier: quick
 //@ cap_s: 600
 //@ mem_gb: 10
 //@ encodes: OrderableValue::{eq,cmp,hash} String arm and String vs Int64/Bool/Timestamp, HashableValue::{eq,hash} String arm
